@@ -258,6 +258,26 @@ def plan(tier, seed):
             P.append({'fam': fam, 'changes': {'Do Carbon Price Calculations': 'True', 'Starting Carbon Credit Value': '0.01',
                                               'Ending Carbon Credit Value': '0.05', 'Carbon Escalation Rate Per Year': '0.01',
                                               'Carbon Escalation Start Year': '1'}})
+    # closed-loop (SBT) economics builds its price/PTC series in its own Calculate
+    for fam0 in F.sbt_grid(econs=(3,), configs=(5,), pairs=((1, 2), (2, 9), (31, 1))):
+        for s in ((1, 2, 1), (2, 1, 2), (5, 1, 1)):
+            fam = dict(fam0)
+            fam['shape'] = list(s)
+            fam['econ'] = 1 + (s[2] % 3)
+            P.append({'fam': fam, 'changes': {}, 'base': True})
+            L = s[0]
+            for prod in ('Electricity', 'Heat'):
+                for k, vals in PRICE_AL.items():
+                    for v in vals:
+                        v = v.replace('{L}', str(L)).replace('{L1}', str(L + 1))
+                        P.append({'fam': fam, 'changes': {k.replace('{p}', prod): v}})
+            for dur in sorted({0, 1, L}):
+                for adj in ('False', 'True'):
+                    P.append({'fam': fam, 'changes': {'Production Tax Credit Electricity': '0.04', 'Production Tax Credit Heat': '0.5',
+                                                      'Production Tax Credit Duration': str(dur), 'Production Tax Credit Inflation Adjusted': adj, 'Inflation Rate': '0.02'}})
+            P.append({'fam': fam, 'changes': {'Do Carbon Price Calculations': 'True', 'Starting Carbon Credit Value': '0.01',
+                                              'Ending Carbon Credit Value': '0.05', 'Carbon Escalation Rate Per Year': '0.01',
+                                              'Carbon Escalation Start Year': '1'}})
     # incentive relations
     rel_pairs = ((1, 1), (2, 9), (2, 7), (41, 3)) if tier == 'quick' else F.PAIRS
     for pair in rel_pairs:
